@@ -28,6 +28,13 @@ pub struct Case {
     pub select_ssl: bool,
 }
 
+/// the negative search is meaningful only when the password is not itself part of something that legitimately travels in
+/// clear (a password equal to the domain, contained in the user name ...)
+pub fn searchable_cfg(cfg: &ClientCfg) -> bool {
+    let p = cfg.password.to_lowercase();
+    searchable(&cfg.password) && ![&cfg.domain, &cfg.user, &cfg.name].iter().any(|s| s.to_lowercase().contains(&p))
+}
+
 pub fn searchable(pw: &str) -> bool {
     let u: Vec<u16> = pw.encode_utf16().collect();
     let mut d = u.clone();
@@ -75,7 +82,7 @@ pub fn run(c: &Case) -> Outcome {
             tls::run_tls_with_connector(&mut connector, &c.cfg, &scfg, 5, true)
         }
     };
-    out.nontrivial(searchable(&c.cfg.password));
+    out.nontrivial(searchable_cfg(&c.cfg));
     out.label(if c.cfg.nla { "nla" } else { "ssl" });
     if c.cfg.restricted_admin {
         out.label("restricted-admin");
@@ -178,7 +185,7 @@ pub fn run(c: &Case) -> Outcome {
                 return out;
             }
             // nothing but the NLA messages to look at
-            if searchable(&c.cfg.password) {
+            if searchable_cfg(&c.cfg) {
                 let raw: Vec<u8> = run.log.iter().flat_map(|e| e.1.iter().copied()).collect();
                 for (name, n) in [("utf-8", c.cfg.password.as_bytes().to_vec()), ("utf-16le", crypto::utf16le(&c.cfg.password)), ("utf-16be", c.cfg.password.encode_utf16().flat_map(|u| [(u >> 8) as u8, u as u8]).collect())] {
                     if find(&raw, &n) {
@@ -226,7 +233,7 @@ pub fn run(c: &Case) -> Outcome {
         }
     }
     // negative part
-    if searchable(&c.cfg.password) {
+    if searchable_cfg(&c.cfg) {
         let needles: Vec<(&str, Vec<u8>)> = vec![
             ("utf-8", c.cfg.password.as_bytes().to_vec()),
             ("utf-16le", crypto::utf16le(&c.cfg.password)),
@@ -304,7 +311,7 @@ impl std::io::Write for NegLane {
 pub fn run_clear(c: &ClearCase) -> Outcome {
     use crate::util::call;
     let mut out = Outcome::new();
-    out.nontrivial(searchable(&c.base.cfg.password));
+    out.nontrivial(searchable_cfg(&c.base.cfg));
     let selected = match &c.reply {
         NegReply::Response { selected, .. } => Some(*selected),
         _ => None,
@@ -333,7 +340,7 @@ pub fn run_clear(c: &ClearCase) -> Outcome {
             out.label("err");
         }
     }
-    if searchable(&c.base.cfg.password) {
+    if searchable_cfg(&c.base.cfg) {
         let raw = raw.borrow();
         for (name, n) in [("utf-8", c.base.cfg.password.as_bytes().to_vec()), ("utf-16le", crypto::utf16le(&c.base.cfg.password)), ("utf-16be", c.base.cfg.password.encode_utf16().flat_map(|u| [(u >> 8) as u8, u as u8]).collect())] {
             if find(&raw, &n) {
@@ -378,7 +385,7 @@ pub fn decode_clear(s: &mut Src) -> ClearCase {
         _ => NegReply::Response { flags: s.u8(), selected: s.b32() },
     };
     let mut base = gen_case(s, None);
-    if !searchable(&base.cfg.password) {
+    if !searchable_cfg(&base.cfg) {
         base.cfg.password = format!("{}S3cr#t-{}", base.cfg.password, s.below(1000));
     }
     ClearCase { base, reply }
@@ -405,7 +412,7 @@ fn client_info_of(frame: &[u8]) -> Option<refimpl::wire::InfoPacket> {
 
 pub fn run_licence(c: &LicCase) -> Outcome {
     let mut out = Outcome::new();
-    out.nontrivial(searchable(&c.base.cfg.password));
+    out.nontrivial(searchable_cfg(&c.base.cfg));
     let mut scfg = server_cfg(&c.base);
     scfg.profile.license = c.license.clone();
     let run = tls::run_tls(&c.base.cfg, &scfg, 2, false, &mut |_| ());
@@ -444,7 +451,7 @@ pub fn run_licence(c: &LicCase) -> Outcome {
                 out.fail("secrets:autologon", format!("Client Info #{}: INFO_AUTOLOGON {} but auto logon configured {}", infos, info.flags & INFO_AUTOLOGON != 0, c.base.cfg.auto_logon));
                 return out;
             }
-        } else if searchable(&c.base.cfg.password) {
+        } else if searchable_cfg(&c.base.cfg) {
             for (name, n) in &needles {
                 if find(f, n) {
                     out.fail("secrets:password-in-other-pdu", format!("the {} password occurs in client frame #{} (phase {:?}), which is not a Client Info PDU", name, i, ph));
@@ -456,7 +463,7 @@ pub fn run_licence(c: &LicCase) -> Outcome {
     if infos >= 2 {
         out.label("client-info-resent");
     }
-    if searchable(&c.base.cfg.password) {
+    if searchable_cfg(&c.base.cfg) {
         let raw: Vec<u8> = run.log.iter().flat_map(|e| e.1.iter().copied()).collect();
         for (name, n) in &needles {
             if find(&raw, n) {
